@@ -19,6 +19,16 @@
 //! show [read.., write..] and publish encode(variables). For %Q/%M singles and bit-sharing pairs:
 //! value schedule (in cycles 2 and 3 each variable keeps or changes its final value) x external
 //! `IoInterface::write` of a different pattern into the bound spans before cycles 2 and 3.
+//! Faulting runs of %Q singles: fault policy {Halt, SafeHalt, Restart} (`Runtime::set_fault_policy`)
+//! x safe-state entries {none, the bound address, an entry covering it only partly}
+//! (`Runtime::set_io_safe_state`) x the division by zero placed after {none, some, all} output
+//! assignments of the cycle; %Q pairs under SafeHalt with a safe entry for the first binding only.
+//! Fault clause: in every image handed to a driver in/after the faulted cycle, and in
+//! `io().outputs()` afterwards, the bits of a bound span that no safe-state entry covers must not
+//! carry a value the program assigned in the faulted cycle (whether the safe-state delivery itself
+//! must happen is C08's business; the driver call is accepted). Signatures
+//! `fault-publish/fault-cycle` (Halt) and `fault-publish/fault-cycle:safe_halt:%Q:no-safe-entry`
+//! / `:partial-safe-entry` (`:io-image` if only the runtime's own image is polluted).
 //!
 //! What is NOT in the alphabet (expected behaviour not derivable from statement + docs/specs):
 //! * TIME/DATE/TOD/DT/LTIME/LDATE/LTOD/LDT bindings: the compiler accepts them but no encoding is
@@ -65,7 +75,8 @@ use std::sync::{Arc, Mutex};
 use std::time::{Duration as StdDuration, Instant};
 use trust_runtime::error::RuntimeError;
 use trust_runtime::harness::TestHarness;
-use trust_runtime::io::{IoAddress, IoDriver};
+use trust_runtime::io::{IoAddress, IoDriver, IoSafeState};
+use trust_runtime::watchdog::FaultPolicy;
 use trust_runtime::memory::InstanceId;
 use trust_runtime::value::{Duration, Value};
 use trust_runtime::Runtime;
@@ -546,9 +557,34 @@ struct Case {
     /// before cycles 2 and 3 something else writes a different pattern into every bound %Q/%M
     /// span through `IoInterface::write`
     ext: bool,
+    /// fault policy of the runtime: 0 = Halt (default), 1 = SafeHalt, 2 = Restart
+    policy: u8,
+    /// configured safe-state entries (address, bit pattern), applied by the runtime under SafeHalt
+    safe: Vec<(Addr, u64)>,
+    /// where in the faulting cycle the division by zero sits: 0 = before any output assignment,
+    /// 1 = after the early and mid assignments (some), 2 = after the late ones (all)
+    fault_pos: u8,
+}
+
+const POLICY_NAMES: [&str; 3] = ["halt", "safe_halt", "restart"];
+
+/// recognisable safe value for an address (bits covered by a safe entry are exempt from the fault
+/// clause, so a coincidence with a program value cannot matter)
+fn safe_bits(a: &Addr) -> u64 {
+    if a.size == Size::X {
+        return (a.bit % 2 == 0) as u64;
+    }
+    let mut v = 0u64;
+    for j in 0..a.size.bits() / 8 {
+        v |= ((0xC3u8.wrapping_add((j as u8).wrapping_mul(0x0B))) as u64) << (8 * j);
+    }
+    v
 }
 
 impl Case {
+    fn plain(family: &'static str, shape: Shape, drivers: usize, fault_cycle: usize, binds: Vec<Bind>) -> Case {
+        Case { family, shape, drivers, fault_cycle, binds, partial: None, sched: 0, ext: false, policy: 0, safe: Vec::new(), fault_pos: 1 }
+    }
     fn eff_cycle(&self, k: usize, c: usize) -> usize {
         let mut e = c;
         while (2..=3).contains(&e) && k < 2 && (self.sched >> ((e - 2) * 2 + k)) & 1 == 1 {
@@ -573,6 +609,11 @@ impl Case {
         if self.sched != 0 || self.ext {
             j["sched"] = json!(self.sched);
             j["ext"] = json!(self.ext);
+        }
+        if self.policy != 0 || !self.safe.is_empty() || self.fault_pos != 1 {
+            j["policy"] = json!(POLICY_NAMES[self.policy as usize % 3]);
+            j["safe"] = json!(self.safe.iter().map(|(a, v)| json!({"addr": a.text(), "bits": v})).collect::<Vec<_>>());
+            j["fault_pos"] = json!(self.fault_pos);
         }
         j
     }
@@ -604,6 +645,12 @@ impl Case {
             partial,
             sched: j["sched"].as_u64().unwrap_or(0) as u8,
             ext: j["ext"].as_bool().unwrap_or(false),
+            policy: POLICY_NAMES.iter().position(|n| Some(*n) == j["policy"].as_str()).unwrap_or(0) as u8,
+            safe: j["safe"]
+                .as_array()
+                .map(|a| a.iter().filter_map(|e| Some((Addr::parse(e["addr"].as_str()?)?, e["bits"].as_u64()?))).collect())
+                .unwrap_or_default(),
+            fault_pos: j["fault_pos"].as_u64().unwrap_or(1) as u8,
         })
     }
 }
@@ -672,6 +719,10 @@ fn build_prog(case: &Case) -> Prog {
             p.stmt(0, format!("ra{k} := b{k};"), &[&format!("ra{k}"), &format!("b{k}")]);
         }
     }
+    let trip = "IF trip THEN zq := zq / zz; END_IF;";
+    if case.fault_pos == 0 {
+        p.stmt(0, trip.into(), &["trip", "zq", "zz"]);
+    }
     for (k, b) in case.binds.iter().enumerate() {
         if b.addr.area.writes() {
             p.stmt(0, format!("b{k} := se{k};"), &[&format!("b{k}"), &format!("se{k}")]);
@@ -690,7 +741,9 @@ fn build_prog(case: &Case) -> Prog {
         }
     }
     p.stmt(1, "mb := stamp;".into(), &["mb", "stamp"]);
-    p.stmt(1, "IF trip THEN zq := zq / zz; END_IF;".into(), &["trip", "zq", "zz"]);
+    if case.fault_pos == 1 {
+        p.stmt(1, trip.into(), &["trip", "zq", "zz"]);
+    }
     // segment C: late writes (final values), last statements read the inputs again
     p.stmt(2, "mc := stamp;".into(), &["mc", "stamp"]);
     for (k, b) in case.binds.iter().enumerate() {
@@ -711,6 +764,9 @@ fn build_prog(case: &Case) -> Prog {
         if b.addr.area == Area::I && case.partial.is_none() {
             p.stmt(2, format!("rz{k} := b{k};"), &[&format!("rz{k}"), &format!("b{k}")]);
         }
+    }
+    if case.fault_pos == 2 {
+        p.stmt(2, trip.into(), &["trip", "zq", "zz"]);
     }
     p
 }
@@ -1132,6 +1188,7 @@ struct Stats {
     idle_cycles_checked: u64,
     idle_outputs_changed: u64,
     sched_conflicts: u64,
+    safe_deliveries: u64,
 }
 
 enum Home {
@@ -1235,6 +1292,20 @@ fn run_case(case: &Case) -> Result<CaseRun, String> {
     }
     for b in rt.io_mut().memory_mut() {
         *b = PREFILL;
+    }
+    if case.policy != 0 {
+        rt.set_fault_policy(match case.policy {
+            1 => FaultPolicy::SafeHalt,
+            _ => FaultPolicy::Restart,
+        });
+    }
+    if !case.safe.is_empty() {
+        let mut st = IoSafeState::default();
+        for (a, v) in &case.safe {
+            let parsed = IoAddress::parse(&a.text()).map_err(|e| format!("safe address {}: {e:?}", a.text()))?;
+            st.outputs.push((parsed, api_value(a.size, *v)));
+        }
+        rt.set_io_safe_state(st);
     }
     let sh = Arc::new(Mutex::new(Shared { events: Vec::new(), calls: vec![0; case.drivers] }));
     for id in 0..case.drivers {
@@ -1372,20 +1443,26 @@ fn run_case(case: &Case) -> Result<CaseRun, String> {
                     .binds
                     .iter()
                     .enumerate()
-                    .map(|(k, _)| vec![case.val(k, c, 0), case.val(k, c, 1)])
+                    .map(|(k, _)| (0..match case.fault_pos { 0 => 0, 1 => 2, _ => 3 }).map(|ph| case.val(k, c, ph)).collect())
                     .collect();
                 // the interesting branch: the early/mid writes really happened before the fault
                 let visible = case.binds.iter().enumerate().any(|(k, b)| {
                     b.addr.area == Area::Q
-                        && get_var(rt, &home, &format!("b{k}")).and_then(|v| value_bits(b.ty, &v)) == Some(fault_vals[k][1])
+                        && !fault_vals[k].is_empty()
+                        && get_var(rt, &home, &format!("b{k}")).and_then(|v| value_bits(b.ty, &v)) == fault_vals[k].last().copied()
                 });
                 if visible {
                     stats.fault_value_was_visible += 1;
                 }
-                let mb = get_var(rt, &home, "mb").and_then(|v| value_bits(&TYPES[6], &v));
-                let mc = get_var(rt, &home, "mc").and_then(|v| value_bits(&TYPES[6], &v));
-                if mb != Some(c as u64) || mc == Some(c as u64) {
-                    return Err(format!("fault cycle {c}: segment B did not run or segment C ran (mb={mb:?}, mc={mc:?}): {}", case.to_json()));
+                let mark = |n: &str| get_var(rt, &home, n).and_then(|v| value_bits(&TYPES[6], &v)) == Some(c as u64);
+                let (ma, mb, mc) = (mark("ma"), mark("mb"), mark("mc"));
+                let as_designed = match case.fault_pos {
+                    0 => !ma && !mb && !mc,
+                    1 => ma && mb && !mc,
+                    _ => ma && mb && mc,
+                };
+                if !as_designed {
+                    return Err(format!("fault cycle {c}: the fault did not sit where it was placed (ma={ma}, mb={mb}, mc={mc}): {}", case.to_json()));
                 }
                 // inputs are still asked for exactly once before the program
                 let reads: String = events.iter().filter_map(|e| if let Ev::Read { drv, .. } = e { Some(format!("R{drv}")) } else { None }).collect();
@@ -1396,43 +1473,80 @@ fn run_case(case: &Case) -> Result<CaseRun, String> {
             }
             stats.fault_cycles_checked += 1;
             let when = if is_fault_cycle { "fault-cycle" } else { "after-fault" };
-            for (drv, image) in &writes {
-                if image.len() != IMG {
-                    continue;
+            // every image handed to a driver, and the image the runtime holds afterwards: outside
+            // the configured safe-state entries no bound span may carry a value that the program
+            // computed in the faulted cycle
+            let mut cover = vec![0u8; IMG * 8];
+            for b in case.binds.iter().filter(|b| b.addr.area == Area::Q) {
+                let (s, e) = b.addr.bit_span();
+                for x in cover.iter_mut().take(e).skip(s) {
+                    *x += 1;
                 }
-                let mut cover = vec![0u8; IMG * 8];
-                for b in case.binds.iter().filter(|b| b.addr.area == Area::Q) {
-                    let (s, e) = b.addr.bit_span();
-                    for x in cover.iter_mut().take(e).skip(s) {
-                        *x += 1;
-                    }
+            }
+            let mut safe_cover = vec![false; IMG * 8];
+            for (a, _) in case.safe.iter().filter(|(a, _)| a.area == Area::Q) {
+                let (s, e) = a.bit_span();
+                for x in safe_cover.iter_mut().take(e).skip(s) {
+                    *x = true;
+                }
+            }
+            let mut consumers: Vec<(String, &[u8], &[u8], bool)> = writes
+                .iter()
+                .filter(|(_, img)| img.len() == IMG)
+                .map(|(d, img)| (format!("driver {d} was given an output image"), &img[..], &last_pub[*d][..], false))
+                .collect();
+            if !writes.is_empty() && case.policy == 1 {
+                stats.safe_deliveries += 1;
+            }
+            let io_after = rt.io().outputs().to_vec();
+            if io_after.len() == IMG {
+                consumers.push(("after the faulted cycle Runtime::io().outputs() holds an image".to_string(), &io_after[..], &out_before[..], true));
+            }
+            let mut reported = false;
+            for (label, image, lp, is_io) in consumers {
+                if is_io && reported {
+                    continue; // same leak, already reported at the driver
                 }
                 for (k, b) in case.binds.iter().enumerate() {
                     if b.addr.area != Area::Q {
                         continue;
                     }
                     let (s, e) = b.addr.bit_span();
-                    let mut bits: Vec<usize> = (s..e).filter(|&p| cover[p] == 1).collect();
+                    let touched_by_safe = (s..e).any(|p| safe_cover[p]);
+                    let mut bits: Vec<usize> = (s..e).filter(|&p| cover[p] == 1 && !safe_cover[p]).collect();
                     if bits.is_empty() {
-                        bits = (s..e).collect();
+                        bits = (s..e).filter(|&p| !safe_cover[p]).collect();
                     }
-                    let lp = &last_pub[*drv];
-                    if bits.iter().all(|&p| bit_at(image, p) == bit_at(lp, p)) {
+                    if bits.is_empty() || bits.iter().all(|&p| bit_at(image, p) == bit_at(lp, p)) {
                         continue;
                     }
                     for v in &fault_vals[k] {
                         if Some(*v) == fault_var_before[k] {
                             continue;
                         }
-                        let mut t = lp.clone();
+                        let mut t = lp.to_vec();
                         img_put(&mut t, &b.addr, *v);
                         if bits.iter().all(|&p| bit_at(&t, p) == bit_at(image, p)) {
+                            let mut tail = format!("fault-publish/{when}");
+                            if case.policy != 0 {
+                                tail.push_str(&format!(
+                                    ":{}:%Q:{}",
+                                    POLICY_NAMES[case.policy as usize % 3],
+                                    if touched_by_safe { "partial-safe-entry" } else { "no-safe-entry" }
+                                ));
+                            }
+                            if is_io {
+                                tail.push_str(":io-image");
+                            }
+                            reported = true;
                             push(
                                 &mut viols,
-                                format!("fault-publish/{when}"),
+                                tail,
                                 format!(
-                                    "driver {drv} was given an output image in which {} : {} carries {v:#x}, a value the program computed in the faulted cycle; last image before the fault [{}], image given [{}]",
-                                    b.addr.text(), b.ty.name, hex(lp), hex(image)
+                                    "{label} in which {} : {} carries {v:#x}, a value the program computed in the faulted cycle (fault policy {}, safe-state entries [{}]); image before the fault [{}], image now [{}]",
+                                    b.addr.text(), b.ty.name, POLICY_NAMES[case.policy as usize % 3],
+                                    case.safe.iter().map(|(a, v)| format!("{} := {v:#x}", a.text())).collect::<Vec<_>>().join(", "),
+                                    hex(lp), hex(image)
                                 ),
                                 c,
                             );
@@ -1809,6 +1923,8 @@ struct Plan {
     partial_offsets: Vec<usize>,
     /// value schedules x external image writes (see `Case::sched`, `Case::ext`)
     shapes_sched_single: Vec<Shape>,
+    shapes_fault: Vec<Shape>,
+    shapes_fault_pair: Vec<Shape>,
     pair_scheds: Vec<u8>,
 }
 
@@ -1854,7 +1970,7 @@ fn enumerate(plan: &Plan) -> Vec<Case> {
             if f != 0 && b.addr.area != Area::Q {
                 continue;
             }
-            cases.push(Case { family: "single", shape: sh, drivers: d, fault_cycle: f, binds: vec![b.clone()], partial: None, sched: 0, ext: false });
+            cases.push(Case { family: "single", shape: sh, drivers: d, fault_cycle: f, binds: vec![b.clone()], partial: None, sched: 0, ext: false, policy: 0, safe: Vec::new(), fault_pos: 1 });
         }
     }
     // partial access on a bound bit-string variable
@@ -1878,6 +1994,9 @@ fn enumerate(plan: &Plan) -> Vec<Case> {
                                 partial: Some(Partial { kind, idx }),
                                 sched: 0,
                                 ext: false,
+                                policy: 0,
+                                safe: Vec::new(),
+                                fault_pos: 1,
                             });
                         }
                     }
@@ -1893,7 +2012,7 @@ fn enumerate(plan: &Plan) -> Vec<Case> {
                     continue; // the plain single cases above
                 }
                 for b in singles.iter().filter(|b| b.addr.area.writes()) {
-                    cases.push(Case { family: "single", shape: sh, drivers: 1, fault_cycle: 0, binds: vec![b.clone()], partial: None, sched, ext });
+                    cases.push(Case { family: "single", shape: sh, drivers: 1, fault_cycle: 0, binds: vec![b.clone()], partial: None, sched, ext, policy: 0, safe: Vec::new(), fault_pos: 1 });
                 }
             }
         }
@@ -1928,9 +2047,70 @@ fn enumerate(plan: &Plan) -> Vec<Case> {
                                 partial: None,
                                 sched,
                                 ext,
+                                policy: 0,
+                                safe: Vec::new(),
+                                fault_pos: 1,
                             });
                         }
                     }
+                }
+            }
+        }
+    }
+    // fault policy x safe-state entry set x position of the fault among the output assignments
+    for (sh, d, f) in variants(&plan.shapes_fault, &plan.faults, true, plan.pair_all_types) {
+        if f == 0 {
+            continue;
+        }
+        for b in singles.iter().filter(|b| b.addr.area == Area::Q) {
+            let a = b.addr;
+            let all = vec![(a, safe_bits(&a))];
+            // an entry that covers the bound address only partly
+            let part = match a.size {
+                Size::X => None,
+                Size::B => Some(Addr { area: Area::Q, size: Size::X, byte: a.byte, bit: 0 }),
+                _ => Some(Addr { area: Area::Q, size: Size::B, byte: a.byte + 1, bit: 0 }),
+            };
+            let mut combos: Vec<(u8, Vec<(Addr, u64)>, u8)> = vec![(0, vec![], 0), (0, vec![], 2), (2, vec![], 1)];
+            for pos in 0..3u8 {
+                combos.push((1, vec![], pos));
+                combos.push((1, all.clone(), pos));
+                if let Some(pa) = part {
+                    combos.push((1, vec![(pa, safe_bits(&pa))], pos));
+                }
+            }
+            for (policy, safe, fault_pos) in combos {
+                let mut c = Case::plain("single", sh, d, f, vec![b.clone()]);
+                c.policy = policy;
+                c.safe = safe;
+                c.fault_pos = fault_pos;
+                cases.push(c);
+            }
+        }
+    }
+    // SafeHalt with a safe entry for a strict subset (the first) of two bound output addresses
+    for (sh, d, f) in variants(&plan.shapes_fault_pair, &plan.faults, true, plan.pair_all_types) {
+        if f == 0 {
+            continue;
+        }
+        let addrs = addresses(Area::Q);
+        for (i, a) in addrs.iter().enumerate() {
+            for (j, b) in addrs.iter().enumerate() {
+                if !spans_touch(a, b) {
+                    continue;
+                }
+                let ta = types_of(a.size);
+                let tb = types_of(b.size);
+                let combos: Vec<(&'static Ty, &'static Ty)> = if plan.pair_all_types {
+                    ta.iter().flat_map(|x| tb.iter().map(move |y| (*x, *y))).collect()
+                } else {
+                    vec![(ta[(i + j) % ta.len()], tb[(i + 2 * j + 1) % tb.len()])]
+                };
+                for (x, y) in combos {
+                    let mut c = Case::plain("pair", sh, d, f, vec![Bind { addr: *a, ty: x }, Bind { addr: *b, ty: y }]);
+                    c.policy = 1;
+                    c.safe = vec![(*a, safe_bits(a))];
+                    cases.push(c);
                 }
             }
         }
@@ -1940,7 +2120,7 @@ fn enumerate(plan: &Plan) -> Vec<Case> {
         for addr in addresses(Area::I) {
             for ty in types_of(addr.size) {
                 let binds = AREAS.iter().map(|&a| Bind { addr: Addr { area: a, ..addr }, ty }).collect();
-                cases.push(Case { family: "tri", shape: sh, drivers: d, fault_cycle: f, binds, partial: None, sched: 0, ext: false });
+                cases.push(Case { family: "tri", shape: sh, drivers: d, fault_cycle: f, binds, partial: None, sched: 0, ext: false, policy: 0, safe: Vec::new(), fault_pos: 1 });
             }
         }
     }
@@ -1964,14 +2144,14 @@ fn enumerate(plan: &Plan) -> Vec<Case> {
                     if plan.pair_all_types {
                         for x in &ta {
                             for y in &tb {
-                                cases.push(Case { family: "pair", shape: sh, drivers: d, fault_cycle: f, binds: vec![Bind { addr: *a, ty: x }, Bind { addr: *b, ty: y }], partial: None, sched: 0, ext: false });
+                                cases.push(Case { family: "pair", shape: sh, drivers: d, fault_cycle: f, binds: vec![Bind { addr: *a, ty: x }, Bind { addr: *b, ty: y }], partial: None, sched: 0, ext: false, policy: 0, safe: Vec::new(), fault_pos: 1 });
                             }
                         }
                     } else {
                         // one type per member, rotating through the types of its size
                         let x = ta[(i + j) % ta.len()];
                         let y = tb[(i + 2 * j + 1) % tb.len()];
-                        cases.push(Case { family: "pair", shape: sh, drivers: d, fault_cycle: f, binds: vec![Bind { addr: *a, ty: x }, Bind { addr: *b, ty: y }], partial: None, sched: 0, ext: false });
+                        cases.push(Case { family: "pair", shape: sh, drivers: d, fault_cycle: f, binds: vec![Bind { addr: *a, ty: x }, Bind { addr: *b, ty: y }], partial: None, sched: 0, ext: false, policy: 0, safe: Vec::new(), fault_pos: 1 });
                     }
                 }
             }
@@ -2000,6 +2180,8 @@ pub fn run(ctx: &Ctx) -> EngineResult {
         shapes_single: with_idle.clone(),
         shapes_pair: ctx.tier.pick(all.clone(), with_idle.clone()),
         shapes_sched_single: ctx.tier.pick(vec![Shape::Local, Shape::Tasks], all.clone()),
+        shapes_fault: all.clone(),
+        shapes_fault_pair: vec![Shape::Local, Shape::Tasks],
         // quick: every keep/change combination occurs once in cycle 2 and once in cycle 3
         pair_scheds: ctx.tier.pick(vec![0b0000, 0b1100, 0b1001, 0b0110, 0b0011], (0..16).collect()),
         shapes_partial: ctx.tier.pick(vec![Shape::Local], vec![Shape::Local, Shape::Tasks]),
@@ -2060,6 +2242,7 @@ pub fn run(ctx: &Ctx) -> EngineResult {
     let mut broken: HashSet<(char, Size)> = HashSet::new();
     let mut subsumed = 0u64;
     let mut sched_cases = 0u64;
+    let mut policy_cases = 0u64;
     for (case, r) in cases.iter().zip(res) {
         let Some(r) = r else {
             exhaustive = false;
@@ -2102,6 +2285,10 @@ pub fn run(ctx: &Ctx) -> EngineResult {
         tot.idle_cycles_checked += st.idle_cycles_checked;
         tot.idle_outputs_changed += st.idle_outputs_changed;
         tot.sched_conflicts += st.sched_conflicts;
+        tot.safe_deliveries += st.safe_deliveries;
+        if case.policy != 0 || !case.safe.is_empty() || case.fault_pos != 1 {
+            policy_cases += 1;
+        }
         if case.sched != 0 || case.ext {
             sched_cases += 1;
         }
@@ -2166,6 +2353,9 @@ pub fn run(ctx: &Ctx) -> EngineResult {
     if executed == cases.len() && (tot.idle_cycles_checked == 0 || tot.idle_outputs_changed == 0) {
         return machinery(format!("no idle cycle (no task due) with an externally changed output variable was checked: {tot:?}"));
     }
+    if executed == cases.len() && (policy_cases == 0 || tot.safe_deliveries == 0) {
+        return machinery("no faulted cycle under SafeHalt delivered an image to a driver: the fault-policy family is vacuous");
+    }
     if executed == cases.len() && (sched_cases == 0 || tot.sched_conflicts == 0) {
         return machinery("no keep/change value schedule on overlapping bindings reached a cycle with conflicting final values");
     }
@@ -2176,7 +2366,7 @@ pub fn run(ctx: &Ctx) -> EngineResult {
     rep.set("distinct_nontrivial", distinct.len() as u64);
     rep.set(
         "rule",
-        "cases = api (every address x 2 fill patterns) + binding sets: every single binding (area x {X bit0-7,B,W,D,L} x byte offset {0,1,2,3,7} x every declared type of that width) and every pair in one area whose byte spans overlap or touch (quick: unordered, one rotating type per member; thorough: ordered, all type pairs), the same address in %I+%Q+%M, and IEC partial accesses on bound bit strings; each multiplied by binding site {program VAR, VAR_GLOBAL with two tasks + background program, AT %* + VAR_CONFIG, FB VAR, VAR_GLOBAL with every program task-bound at INTERVAL 100 ms and cycles at t=0,100,125,225 ms (two idle cycles, output variables changed through the storage API)}, 1 or 2 logging drivers and {no fault, division by zero in cycle f}; for %Q/%M singles and bit-sharing pairs additionally value schedule (per cycle 2,3 each variable keeps or changes its final value) x {no, yes} external IoInterface::write of a different pattern into the bound spans before cycles 2 and 3. distinct_nontrivial = distinct cases (hash of the case description) that compiled, completed at least one fully checked cycle and in which a latched value or a written image differed from the 0xA5 pre-fill.",
+        "cases = api (every address x 2 fill patterns) + binding sets: every single binding (area x {X bit0-7,B,W,D,L} x byte offset {0,1,2,3,7} x every declared type of that width) and every pair in one area whose byte spans overlap or touch (quick: unordered, one rotating type per member; thorough: ordered, all type pairs), the same address in %I+%Q+%M, and IEC partial accesses on bound bit strings; each multiplied by binding site {program VAR, VAR_GLOBAL with two tasks + background program, AT %* + VAR_CONFIG, FB VAR, VAR_GLOBAL with every program task-bound at INTERVAL 100 ms and cycles at t=0,100,125,225 ms (two idle cycles, output variables changed through the storage API)}, 1 or 2 logging drivers and {no fault, division by zero in cycle f}; for %Q/%M singles and bit-sharing pairs additionally value schedule (per cycle 2,3 each variable keeps or changes its final value) x {no, yes} external IoInterface::write of a different pattern into the bound spans before cycles 2 and 3; for %Q singles in faulting runs additionally fault policy {Halt, SafeHalt, Restart} x safe-state entries {none, the bound address, an entry covering it partly} x fault placed after {none, some, all} output assignments, and %Q pairs under SafeHalt with a safe entry for the first binding only. distinct_nontrivial = distinct cases (hash of the case description) that compiled, completed at least one fully checked cycle and in which a latched value or a written image differed from the 0xA5 pre-fill.",
     );
     rep.set("binding_cases_enumerated", cases.len() as u64);
     rep.set("binding_cases_executed", executed as u64);
@@ -2196,6 +2386,8 @@ pub fn run(ctx: &Ctx) -> EngineResult {
     rep.set("idle_cycles_with_output_variable_changed_from_outside", tot.idle_outputs_changed);
     rep.set("value_schedule_or_external_write_cases", sched_cases);
     rep.set("value_schedule_cycles_with_conflicting_overlap", tot.sched_conflicts);
+    rep.set("fault_policy_safe_state_cases", policy_cases);
+    rep.set("safe_halt_fault_cycles_with_driver_delivery", tot.safe_deliveries);
     rep.set("types_in_alphabet", TYPES.len() as u64);
     rep.set("exhaustive", exhaustive);
     rep.assume("value type tags are not inspected (C03); values are compared as bit patterns of the declared width");
